@@ -9,3 +9,4 @@ import Pr
 #print axioms Hs.root_children
 #print axioms Gn.rounds7_eq
 #print axioms le32_bytes
+#print axioms Hs.wide_spec
